@@ -11,6 +11,7 @@ from typing import Dict, List, Optional
 import z3
 
 from .engine import (And, Engine, I, Implies, Not, Or, S, State, Unsupported, BindingError)
+from .values import ForAllP
 from .values import (ANYOBJ, BOOL, DICT, FALSE, INT, NONE, OBJ, SEQ, SETOF, STR, STR_CID, TRUE, TUP, MapV, Obj, SeqV, SV,
                      Ty, class_of, flat_sorts, fresh_name, fresh_sv, from_flat, is_false, is_true, ite_sv, none_sv,
                      obj_id, parse_type, strval, to_flat, unify)
@@ -212,7 +213,7 @@ def apply_def(e: Engine, st: State, name: str, lam: ast.Lambda, args: List[SV]) 
     cache = e.__dict__.setdefault("_def_cache", {})
     if key not in cache:
         f = z3.Function(f"{name}#{len(cache)}", *([z3.IntSort()] * len(args) + [z3.BoolSort()]))
-        cache[key] = (f, z3.ForAll(vars_, f(*vars_) == bt, patterns=[f(*vars_)]))
+        cache[key] = (f, ForAllP(vars_, f(*vars_) == bt, patterns=[f(*vars_)]))
     f, ax = cache[key]
     if key not in st.defs_assumed:
         st.defs_assumed.add(key)
@@ -386,6 +387,16 @@ def builtin(e: Engine, st: State, name: str, args: List[SV], kw: Dict[str, SV], 
         if fn is None:
             raise Unsupported("hash() without hash_of spec")
         return fn(e, st, a)
+    if name in ("any", "all"):
+        xs = args[0]
+        if xs.ty.kind != "seq":
+            raise Unsupported(f"{name}() over {xs.ty}")
+        j = z3.Int(fresh_name("aj"))
+        el = e.seq_get(xs, j)
+        t = e.truthy(st, el)
+        if name == "any":
+            return SV(BOOL, z3.Exists([j], And(j >= 0, j < xs.v.len, t)))
+        return SV(BOOL, ForAllP([j], Implies(And(j >= 0, j < xs.v.len), t)))
     if name == "defaultdict":
         hint = getattr(e, "_list_hint", None)
         if hint is None or hint.kind != "dict":
@@ -406,7 +417,7 @@ def str_as_seq(e: Engine, st: State, s: SV) -> SV:
     out = fresh_sv(SEQ(STR), "chars", optional=False)
     j = z3.Int(fresh_name("j"))
     st.assume(out.v.len == z3.Length(s.v))
-    st.assume(z3.ForAll([j], Implies(And(j >= 0, j < out.v.len),
+    st.assume(ForAllP([j], Implies(And(j >= 0, j < out.v.len),
                                      And(z3.Select(out.v.arrs[0], j) == z3.SubString(s.v, j, 1), Not(z3.Select(out.v.arrs[1], j)))),
                         patterns=[z3.Select(out.v.arrs[0], j)]))
     out.tag = ("chars", s)
@@ -478,10 +489,10 @@ def sorted_(e: Engine, st: State, args, kw) -> SV:
     j = z3.Int(fresh_name("sj"))
     j2 = z3.Int(fresh_name("sj2"))
     st.assume(out.v.len == n)
-    st.assume(z3.ForAll([j], Implies(And(j >= 0, j < n), And(p(j) >= 0, p(j) < n, q(p(j)) == j,
+    st.assume(ForAllP([j], Implies(And(j >= 0, j < n), And(p(j) >= 0, p(j) < n, q(p(j)) == j,
                                                             *[z3.Select(a, j) == z3.Select(b, p(j)) for a, b in zip(out.v.arrs, xs.v.arrs)])),
                         patterns=[p(j)]))
-    st.assume(z3.ForAll([j], Implies(And(j >= 0, j < n), And(q(j) >= 0, q(j) < n, p(q(j)) == j)), patterns=[q(j)]))
+    st.assume(ForAllP([j], Implies(And(j >= 0, j < n), And(q(j) >= 0, q(j) < n, p(q(j)) == j)), patterns=[q(j)]))
 
     def keyof(i):
         el = e.seq_get(out, i)
@@ -496,8 +507,8 @@ def sorted_(e: Engine, st: State, args, kw) -> SV:
         eq = e.equal(st, ka, kb)
     finally:
         e.spec_mode = saved
-    st.assume(z3.ForAll([j, j2], Implies(And(j >= 0, j <= j2, j2 < n), le)))
-    st.assume(z3.ForAll([j, j2], Implies(And(j >= 0, j < j2, j2 < n, eq), p(j) < p(j2)),
+    st.assume(ForAllP([j, j2], Implies(And(j >= 0, j <= j2, j2 < n), le)))
+    st.assume(ForAllP([j, j2], Implies(And(j >= 0, j < j2, j2 < n, eq), p(j) < p(j2)),
                         patterns=[z3.MultiPattern(p(j), p(j2))]))
     out.tag = ("sorted", xs, p, q)
     e.trust("E-SORTED: sorted() returns a stable permutation with non-decreasing keys")
@@ -513,11 +524,11 @@ def bisect_(e: Engine, st: State, name: str, args) -> SV:
     el = lambda i: z3.Select(xs.v.arrs[0], i)
     st.assume(And(r >= 0, r <= n))
     if name == "bisect_left":
-        st.assume(z3.ForAll([j], Implies(And(j >= 0, j < r), el(j) < x.v), patterns=[el(j)]))
-        st.assume(z3.ForAll([j], Implies(And(j >= r, j < n), el(j) >= x.v), patterns=[el(j)]))
+        st.assume(ForAllP([j], Implies(And(j >= 0, j < r), el(j) < x.v), patterns=[el(j)]))
+        st.assume(ForAllP([j], Implies(And(j >= r, j < n), el(j) >= x.v), patterns=[el(j)]))
     else:
-        st.assume(z3.ForAll([j], Implies(And(j >= 0, j < r), el(j) <= x.v), patterns=[el(j)]))
-        st.assume(z3.ForAll([j], Implies(And(j >= r, j < n), el(j) > x.v), patterns=[el(j)]))
+        st.assume(ForAllP([j], Implies(And(j >= 0, j < r), el(j) <= x.v), patterns=[el(j)]))
+        st.assume(ForAllP([j], Implies(And(j >= r, j < n), el(j) > x.v), patterns=[el(j)]))
     e.trust("E-BISECT: bisect_left/right on a sorted list (sortedness is an obligation at the call site)")
     return SV(INT, r)
 
@@ -539,7 +550,7 @@ def set_card(e: Engine, st: State, s: SV):
     j = z3.Int(fresh_name("kj"))
     k0 = elem_key(e, st, e.seq_get(xs, I(0)))
     kj = elem_key(e, st, e.seq_get(xs, j))
-    allsame = z3.ForAll([j], Implies(And(j >= 0, j < xs.v.len), kj == k0))
+    allsame = ForAllP([j], Implies(And(j >= 0, j < xs.v.len), kj == k0))
     st.assume(And(card >= 0, card <= xs.v.len, (card == 0) == (xs.v.len == 0)))
     st.assume((card == 1) == And(xs.v.len >= 1, allsame))
     e.trust("E-SET: len(set(xs)) is 0 iff xs empty, 1 iff all elements have one equality key")
@@ -556,13 +567,13 @@ def list_of_set(e: Engine, st: State, s: SV) -> SV:
     rep = z3.Function(fresh_name("rep"), z3.IntSort(), z3.IntSort())      # source index -> out index
     n, m = xs.v.len, out.v.len
     st.assume(And(m >= 0, m <= n))
-    st.assume(z3.ForAll([j], Implies(And(j >= 0, j < m), And(wit(j) >= 0, wit(j) < n,
+    st.assume(ForAllP([j], Implies(And(j >= 0, j < m), And(wit(j) >= 0, wit(j) < n,
                                      *[z3.Select(a, j) == z3.Select(b, wit(j)) for a, b in zip(out.v.arrs, xs.v.arrs)])),
                         patterns=[wit(j)]))
     ko = lambda i: elem_key(e, st, e.seq_get(out, i))
     kx = lambda i: elem_key(e, st, e.seq_get(xs, i))
-    st.assume(z3.ForAll([j], Implies(And(j >= 0, j < n), And(rep(j) >= 0, rep(j) < m, ko(rep(j)) == kx(j))), patterns=[rep(j)]))
-    st.assume(z3.ForAll([j, j2], Implies(And(j >= 0, j < j2, j2 < m), ko(j) != ko(j2))))
+    st.assume(ForAllP([j], Implies(And(j >= 0, j < n), And(rep(j) >= 0, rep(j) < m, ko(rep(j)) == kx(j))), patterns=[rep(j)]))
+    st.assume(ForAllP([j, j2], Implies(And(j >= 0, j < j2, j2 < m), ko(j) != ko(j2))))
     e.trust("E-SET: list(set(xs)) is an unspecified-order enumeration of the distinct (by __eq__/__hash__) elements")
     out.tag = ("setlist", xs, wit, rep)
     return out
@@ -719,9 +730,9 @@ def str_strip(e: Engine, st: State, s, attr: str, chars: Optional[str]) -> SV:
         st.assume(Implies(hi > 0, Not(char_in(at(hi - 1), chars))))
         def fa(body):
             try:
-                return z3.ForAll([j], body, patterns=[at(j)])
+                return ForAllP([j], body, patterns=[at(j)])
             except z3.Z3Exception:      # the string term contains boolean structure: no explicit pattern
-                return z3.ForAll([j], body)
+                return ForAllP([j], body)
         st.assume(fa(Implies(And(j >= hi, j < n), char_in(at(j), chars))))
         st.assume(Implies(lo < hi, Not(char_in(at(lo), chars))))
         st.assume(fa(Implies(And(j >= 0, j < lo), char_in(at(j), chars))))
@@ -816,7 +827,7 @@ def match_method(e: Engine, st: State, m: SV, attr: str, args) -> SV:
         d = fresh_sv(DICT(STR, STR), "groupdict", optional=False)
         d.tag = ("groupdict", m)
         kk = z3.String(fresh_name("gk"))
-        st.assume(z3.ForAll([kk], Implies(z3.Select(d.v.has, kk),
+        st.assume(ForAllP([kk], Implies(z3.Select(d.v.has, kk),
                                           And(z3.Select(d.v.arrs[1], kk) == Not(m_ghas(m.v, kk)),
                                               z3.Select(d.v.arrs[0], kk) == z3.SubString(m_text(m.v), m_gstart(m.v, kk), m_gend(m.v, kk) - m_gstart(m.v, kk)))),
                             patterns=[z3.Select(d.v.has, kk)]))
@@ -868,4 +879,116 @@ def construct(e: Engine, st: State, cls: str, args, kw, n) -> SV:
     q = f"{e.repo.classes[cls].module}.{cls}.__init__"
     if q in e.reg.contracts:
         return finish_call(e, st, q, args, kw, n, list(n.args))
+    mro = e.repo.mro(cls)
+    if "CitationBase" in mro:
+        return construct_citation(e, st, cls, args, kw)
+    if "Token" in mro:
+        return construct_token(e, st, cls, args, kw)
     raise Unsupported(f"constructor {cls}(...) has no contract")
+
+
+def _bind_fields(e: Engine, cls: str, args, kw):
+    fields = e.repo.all_fields(cls)
+    names = [f.name for f in fields]
+    bound = {}
+    for nme, a in zip(names, args):
+        bound[nme] = a
+    for k, v in kw.items():
+        if k not in names:
+            e.may_raise("TypeError", TRUE, f"ctor-unexpected-keyword:{k}")
+        bound[k] = v
+    return fields, bound
+
+
+def construct_token(e: Engine, st: State, cls: str, args, kw) -> SV:
+    """E-DATACLASS-CTOR for Token classes: fields are set from the arguments; groups defaults to {}."""
+    fields, bound = _bind_fields(e, cls, args, kw)
+    o = e.new_obj(st, cls, base=f"new_{cls}")
+    saved = e.pending_raises
+    e.pending_raises = []
+    for f in fields:
+        if f.name == "data":
+            if "data" in bound:
+                st.assume(strval(o.v) == (bound["data"].v if bound["data"].ty.kind == "str" else strval(bound["data"].v)))
+            continue
+        if f.name in bound:
+            e.store_field(st, o, f.name, bound[f.name])
+        elif f.name == "groups":
+            empty = from_flat(DICT(STR, STR), [FALSE, z3.K(z3.StringSort(), FALSE), z3.K(z3.StringSort(), z3.StringVal("")), z3.K(z3.StringSort(), TRUE)])
+            e.store_field(st, o, "groups", empty)
+        elif f.name in ("exact_editions", "variation_editions"):
+            e.store_field(st, o, f.name, e.seq_from_items([], OBJ("Edition")))
+        elif f.name == "short":
+            e.store_field(st, o, f.name, SV(BOOL, FALSE))
+        else:
+            e.may_raise("TypeError", TRUE, f"ctor-missing:{f.name}")
+    e.pending_raises = saved
+    e.trust("E-DATACLASS-CTOR: dataclass-generated __init__ (+ __post_init__) of Token/citation classes sets the declared fields from its arguments and defaults")
+    return o
+
+
+def construct_citation(e: Engine, st: State, cls: str, args, kw) -> SV:
+    """E-DATACLASS-CTOR for citation classes, including CitationBase/ResourceCitation.__post_init__:
+    groups is the token's groups (a placeholder page `_+` is replaced by None), metadata becomes an instance of the
+    class's own Metadata with the given keys (others None), edition tuples are copied, all_editions = exact + variation."""
+    fields, bound = _bind_fields(e, cls, args, kw)
+    o = e.new_obj(st, cls, base=f"new_{cls}")
+    saved = e.pending_raises
+    e.pending_raises = []
+    tok = bound.get("token")
+    if tok is None:
+        raise Unsupported("citation constructed without token")
+    for f in fields:
+        nm = f.name
+        if nm in ("groups", "metadata"):
+            continue
+        if nm == "all_editions":
+            ex = bound.get("exact_editions") or e.seq_from_items([], OBJ("Edition"))
+            va = bound.get("variation_editions") or e.seq_from_items([], OBJ("Edition"))
+            e.store_field(st, o, nm, e.seq_concat(st, e.coerce(ex, SEQ(OBJ("Edition"))), e.coerce(va, SEQ(OBJ("Edition")))))
+            continue
+        if nm in bound:
+            e.store_field(st, o, nm, bound[nm])
+        elif nm in ("exact_editions", "variation_editions"):
+            e.store_field(st, o, nm, e.seq_from_items([], OBJ("Edition")))
+        else:
+            e.store_field(st, o, nm, none_sv())
+    # groups: the token's dict; "page" becomes None for a placeholder page
+    sm = e.spec_mode
+    e.spec_mode = True
+    tg = e.load_field(st, SV(OBJ("Token"), tok.v, tok.none), "groups")
+    e.spec_mode = sm
+    page_key = z3.StringVal("page")
+    has = z3.Select(tg.v.has, page_key)
+    pv, pn = z3.Select(tg.v.arrs[0], page_key), z3.Select(tg.v.arrs[1], page_key)
+    placeholder = And(has, Not(pn), z3.InRe(pv, z3.Plus(z3.Re("_"))))
+    newg = SV(tg.ty, MapV(tg.v.has, [tg.v.arrs[0], z3.Store(tg.v.arrs[1], page_key, z3.If(placeholder, TRUE, pn))]), tg.none)
+    e.store_field(st, o, "groups", newg)
+    # metadata
+    mc = e.repo.metadata_class(cls)
+    md = e.new_obj(st, mc, base="new_metadata")
+    given = bound.get("metadata")
+    mfields = e.repo.all_fields(mc)
+    for mf in mfields:
+        val = none_sv()
+        if given is not None and given.ty.kind == "dictlit" and mf.name in given.v:
+            val = given.v[mf.name]
+        elif given is not None and given.ty.kind == "dict":
+            # a groupdict(): the value of the same-named group (None if absent/non-participating)
+            key = z3.StringVal(mf.name)
+            fty = e.field_type(e.repo.field_owner(mc, mf.name), mf.name)
+            if fty.kind == "str":
+                gv = from_flat(STR, [z3.Select(given.v.arrs[0], key), z3.Select(given.v.arrs[1], key)])
+                val = ite_sv(z3.Select(given.v.has, key), gv, none_sv())
+        e.store_field(st, SV(OBJ(mc), md.v), mf.name, val)
+    if given is not None and given.ty.kind == "dictlit":
+        for k in given.v:
+            if k not in [mf.name for mf in mfields]:
+                e.pending_raises = saved
+                e.may_raise("TypeError", TRUE, f"metadata-unexpected-key:{k}")
+                saved = e.pending_raises
+                e.pending_raises = []
+    e.store_field(st, o, "metadata", SV(OBJ(mc), md.v))
+    e.pending_raises = saved
+    e.trust("E-DATACLASS-CTOR: dataclass-generated __init__ (+ __post_init__) of Token/citation classes sets the declared fields from its arguments and defaults")
+    return o
